@@ -26,6 +26,8 @@ type c14env struct {
 	rost    map[string]*roster
 	keyPool []*keys.PrivateKey
 	nextKey int
+	// vectors whose committed roster lists the first member twice
+	dupFirst map[int]bool
 }
 
 func (c *c14env) ros(cid []byte) *roster {
@@ -247,7 +249,12 @@ func verifyP256(pub []byte, msg, sig []byte) bool {
 // distinctSigners: number of distinct members of roster with >=1 valid signature of msg among sigs.
 func distinctSigners(rosterPubs [][]byte, msg []byte, sigs [][]byte) int {
 	n := 0
+	seen := map[string]bool{} // a key listed twice in the roster is still one member
 	for _, p := range rosterPubs {
+		if seen[string(p)] {
+			continue
+		}
+		seen[string(p)] = true
 		for _, s := range sigs {
 			if verifyP256(p, msg, s) {
 				n++
@@ -316,6 +323,14 @@ func (c *c14env) buildMatrix(cid, msg []byte, members map[int][]*keys.PrivateKey
 		var v [][]byte
 		need := int(rep)
 		perm := r.Perm(len(ms))
+		if c.dupFirst[i] {
+			// the roster lists ms[0] twice: let that member be the one who signs repeatedly
+			for j, k := range perm {
+				if k == 0 {
+					perm[0], perm[j] = perm[j], perm[0]
+				}
+			}
+		}
 		class := class0
 		if target >= 0 && i != target {
 			class = "honest"
@@ -579,10 +594,17 @@ func runC14(b *runner.Batch) {
 		nvec := 1 + b.Rng.IntN(3)
 		members := map[int][]*keys.PrivateKey{}
 		reps := make([]int64, nvec)
+		c.dupFirst = map[int]bool{}
 		for v := 0; v < nvec; v++ {
 			reps[v] = int64(1 + b.Rng.IntN(4))
 			members[v] = c.freshKeys(int(reps[v]) + b.Rng.IntN(4))
 			c.addNodes(cid, v, pubsOf(members[v]), 0)
+			if b.Rng.IntN(3) == 0 {
+				// a second batch lists the first member again: still one member (seeded change C14-5)
+				c.addNodes(cid, v, pubsOf(members[v][:1]), 0)
+				c.dupFirst[v] = true
+				b.Hit("roster-lists-a-key-twice")
+			}
 		}
 		c.commit(cid, reps, 0)
 		c.checkRoster(cid)
